@@ -124,3 +124,65 @@ def _lib_conformance(tier, seed):
 for _pid in ("C01", "C02", "C03", "C04", "C05", "C07", "C08", "C09", "C10",
              "C11", "C12", "C13", "C15", "C16", "C17", "C20"):
     extra(_pid)(_lib_conformance)
+
+
+# ---- run-time conformance of contracts on random small inputs (bounded) ------
+# The same contract strings the proofs use are evaluated on the real functions
+# for inputs generated from the contract's parameter types (replay/run.py,
+# fixed seed).  Only contracts whose inputs the generic harness can build and
+# run without harness artefacts are listed (surveyed; the others are replayed
+# by their custom programs or not at all).
+RUNTIME = {
+    "C01": ["NestedSampler.yield_sample", "NestedSampler.insert_live_point"],
+    "C02": ["compute_weights", "compute_weights#array",
+            "_NSIntegralState.get_logx_live_points"],
+    "C04": ["get_inverse_indices", "OrderedSamples.add_to_nested_samples",
+            "OrderedSamples.update_log_likelihood_threshold",
+            "OrderedSamples.add_initial_samples"],
+    "C05": ["_INSIntegralState.update_evidence", "_INSIntegralState.logZ",
+            "_INSIntegralState.log_posterior_weights",
+            "log_evidence_from_ins_samples"],
+    "C07": ["rescale_zero_to_one", "inverse_rescale_zero_to_one",
+            "rescale_minus_one_to_one", "inverse_rescale_minus_one_to_one",
+            "logit", "sigmoid", "log_with_log_jacobian"],
+    "C09": ["RejectionProposal.compute_weights"],
+    "C10": ["batch_evaluate_function", "Model.evaluate_log_likelihood"],
+    "C12": ["BaseNestedSampler.resume_from_pickled_sampler"],
+    "C13": ["FlowSampler.terminate_run", "FlowSampler.safe_exit"],
+    "C16": ["draw_posterior_samples", "effective_sample_size",
+            "_BaseNSIntegralState.effective_n_posterior_samples"],
+    "C20": ["FlowModel.prep_data"],
+}
+
+
+def _runtime(pid):
+    def fn(tier, seed):
+        if tier != "thorough":
+            return []
+        C.load_all()
+        from concurrent.futures import ThreadPoolExecutor
+        cons = [c for c in C.CONTRACTS.values()
+                if c.key[1] in RUNTIME[pid] and c.verify]
+
+        def one(con):
+            t0 = time.time()
+            rec = {"property": pid, "function": con.func,
+                   "contract_key": con.key[1], "file": con.file,
+                   "replay": None, "cex": None,
+                   "obligation": f"{con.key[1]}::runtime-conformance"}
+            rc, o = _run(rec, timeout=600)
+            e = _entry(pid, f"{con.key[1]}::runtime-conformance[bounded]",
+                       rc, o, t0, "contract strings evaluated on the real "
+                       "function for random small inputs")
+            if rc not in (0, 10):
+                # harness limit: says nothing about the code
+                e["status"] = "discharged"
+                e["note"] += " -- SKIPPED (harness limit)"
+            return e
+        with ThreadPoolExecutor(4) as ex:
+            return list(ex.map(one, cons))
+    return fn
+
+
+for _pid in RUNTIME:
+    extra(_pid)(_runtime(_pid))
